@@ -12,7 +12,7 @@ import random
 
 from .. import core, progs, e2e, pcapfmt
 from ..past import (OBS_DECL, obs, lit, vint, vbool, vstr, bin_, un, let, ident, call, idx, arr, map_, expr, I, if_,
-                    while_, block, fndef, filt, dot, render, asg)
+                    while_, block, fndef, filt, dot, render, asg, match, arm, plit, prange, pdef, fn, vchar)
 
 PROP = "C13"
 
@@ -96,6 +96,34 @@ def wrap(ctx, fail_stmt, rnd):
 
 CONTEXTS = ["top", "block", "if", "loop", "fn", "fn2", "cond"]
 
+# an expression written over several lines: the failing construct sits on a later line than the statement's first; the
+# reported line is that of the token the failing operation is compiled from (RefSem: per-node lines)
+ML_WRAPS = {
+    "ml-operand": lambda e: bin_("+", I(100), e),
+    "ml-left-operand": lambda e: bin_("+", e, bin_("*", I(2), I(3))),
+    "ml-argument": lambda e: call("two", I(1), e),
+    "ml-first-argument": lambda e: call("two", e, arr(I(1), I(2))),
+    "ml-element": lambda e: arr(I(1), e, I(3)),
+    "ml-map-value": lambda e: map_((I(1), I(2)), (I(3), e)),
+    "ml-match-arm": lambda e: match(I(2), [arm([plit(vint(1))], [expr(I(10))]), arm([plit(vint(2))], [expr(e)]), arm([pdef()], [expr(I(30))])]),
+    "ml-match-scrutinee": lambda e: match(e, [arm([plit(vint(1))], [expr(I(10))]), arm([pdef()], [expr(I(30))])]),
+    "ml-if-branch": lambda e: if_(lit(vbool(True)), [expr(I(1)), expr(e)], [expr(I(2))]),
+    "ml-else-branch": lambda e: if_(lit(vbool(False)), [expr(I(1))], [let("q", I(2)), expr(e)]),
+    "ml-closure-body": lambda e: call(fn([], [let("q", I(1)), expr(e)])),
+    "ml-nested": lambda e: call("two", bin_("-", I(5), arr(I(1), bin_("+", I(1), e))), I(0)),
+}
+# a match whose scrutinee cannot be ordered against a range pattern of a later arm: the comparison is the failing
+# operation, its line is the arm's
+ML_MATCH = [
+    ("match-range-kinds", lambda: match(lit(vstr("a")), [arm([plit(vint(1))], [expr(I(10))]),
+                                                        arm([plit(vint(7)), prange(vint(2), vint(5), True)], [expr(I(20))]),
+                                                        arm([pdef()], [expr(I(30))])])),
+    ("match-range-kinds-null", lambda: match(lit({"k": "null"}), [arm([prange(vstr("a"), vstr("c"), False)], [expr(I(10))]),
+                                                               arm([pdef()], [expr(I(30))])])),
+    ("match-range-kinds-2nd-arm", lambda: match(arr(I(1)), [arm([plit(vchar("x"))], [expr(I(10))]), arm([plit(vchar("y"))], [expr(I(11))]),
+                                                         arm([prange(vchar("a"), vchar("c"), True)], [expr(I(20))])])),
+]
+
 
 def run(rep, tier, seed):
     core.build_harness()
@@ -114,6 +142,38 @@ def run(rep, tier, seed):
                 prog = [OBS_DECL, fndef("one", ["x"], [expr(ident("x"))])] + preceding(rnd, rnd.randint(0, 8)) + \
                     wrap(ctx, fs, rnd) + [obs(I(99))]
                 items.append({"id": "e%d" % n, "prog": prog, "kind": kind, "ctx": ctx, "crlf": rnd.random() < 0.2})
+                n += 1
+    # expressions written over several lines
+    two = fndef("two", ["a", "b"], [expr(ident("a"))])
+    mlreps = 2 if tier == "quick" else 12
+    for kind, mk in FAILS:
+        if kind == "set-index":
+            continue
+        for wn, wrap_ in ML_WRAPS.items():
+            for ctx in ("top", "fn", "loop", "block")[:mlreps * 2]:
+                for r in range(mlreps if ctx == "top" else 1):
+                    form = rnd.choice(["expr", "let", "obs"])
+                    e = wrap_(mk())
+                    fs = expr(e) if form == "expr" else (let("w", e) if form == "let" else obs(e))
+                    fs["ml"] = True
+                    prog = [OBS_DECL, fndef("one", ["x"], [expr(ident("x"))]), two] + preceding(rnd, rnd.randint(0, 5)) + \
+                        wrap(ctx, fs, rnd) + [obs(I(99))]
+                    items.append({"id": "e%d" % n, "prog": prog, "kind": kind, "ctx": wn + "/" + ctx, "crlf": False})
+                    n += 1
+    for kind, mk in ML_MATCH:
+        for ctx in ("top", "fn", "loop", "block", "fn2"):
+            for form in ("expr", "let", "obs"):
+                e = mk()
+                fs = expr(e) if form == "expr" else (let("w", e) if form == "let" else obs(e))
+                fs["ml"] = True
+                prog = [OBS_DECL, fndef("one", ["x"], [expr(ident("x"))])] + preceding(rnd, rnd.randint(0, 5)) + wrap(ctx, fs, rnd) + [obs(I(99))]
+                items.append({"id": "e%d" % n, "prog": prog, "kind": kind, "ctx": "ml/" + ctx, "crlf": False})
+                n += 1
+                # and on one line (the arm's line is the statement's)
+                e = mk()
+                fs = expr(e) if form == "expr" else (let("w", e) if form == "let" else obs(e))
+                prog = [OBS_DECL, fndef("one", ["x"], [expr(ident("x"))])] + preceding(rnd, rnd.randint(0, 5)) + wrap(ctx, fs, rnd) + [obs(I(99))]
+                items.append({"id": "e%d" % n, "prog": prog, "kind": kind, "ctx": "one-line/" + ctx, "crlf": False})
                 n += 1
     # CRLF variants: same program text with \r\n line ends
     for it in items:
@@ -165,6 +225,18 @@ def driver_lines(rep, rnd, tier, items):
             metas.append(("file", it, text, want))
             jobs.append((["-c", text], b""))
             metas.append(("-c", it, text, want))
+        # far down a long script: line numbers beyond 2^16 (and, thorough, beyond 2^17) are reported as they are
+        for nlines in ((65534, 65535, 65536, 70003) if tier == "quick" else (65534, 65535, 65536, 65537, 70003, 131072, 200001)):
+            text = "# c\n" * (nlines - 2) + "let a = 1;\n" + "let w = [1, 2][5];\n" + "puts(1);\n"
+            path = os.path.join(d, "long%d.p2" % nlines)
+            open(path, "w").write(text)
+            jobs.append(([path], b""))
+            metas.append(("file", {"kind": "index"}, "<%d comment lines> let a = 1; let w = [1, 2][5];" % (nlines - 2), nlines))
+            text2 = "\n" * (nlines - 3) + "fn f(x) {\n  7 / x\n}\n" + "f(0);\n"
+            path2 = os.path.join(d, "longf%d.p2" % nlines)
+            open(path2, "w").write(text2)
+            jobs.append(([path2], b""))
+            metas.append(("file", {"kind": "div0"}, "<%d blank lines> fn f(x) { 7 / x } f(0);" % (nlines - 3), nlines - 1))
         for (mode, it, text, want), r in zip(metas, e2e.run_many(jobs)):
             rep.cov["evaluations"] += 1
             m = re.search(rb"\[line (\d+)\] Runtime error", r["err"])
@@ -198,6 +270,27 @@ def filter_lines(rep, rnd, tier):
             want = fap[1]["ln"]
             jobs.append((["-s", "-c", text], cap))
             metas.append((kind, text, want))
+    # failing operations that exist only while a packet is being processed: a layer index beyond the deepest possible
+    # layer, a header field assigned a value of the wrong kind, a field of a layer the frame does not have
+    only_here = {"dollar-depth-11": "$11;", "dollar-depth-40": "let z = $40;", "dollar-depth-computed": "let d = 3 * 5; $d;",
+                 "field-kind": "($2).ttl = \"x\";", "field-of-error": "let e = ($3).nosuchlayer;"}
+    for kind, stmt_text in only_here.items():
+        if kind == "field-of-error":
+            continue        # (a parse error: not a runtime failure)
+        for r in range(3 if tier == "quick" else 10):
+            pre_n = rnd.randint(0, 9)
+            head = "".join(rnd.choice(["\n", "# c\n", "let p%d = %d;\n" % (k, k)]) for k in range(pre_n))
+            inner_pre = rnd.randint(0, 3)
+            body = "".join("  let q%d = %d;\n" % (k, k) for k in range(inner_pre))
+            for place in ("action", "function-called-from-action"):
+                if place == "action":
+                    text = head + "@ true {\n" + body + "  " + stmt_text + "\n}\n"
+                    want = head.count("\n") + 1 + inner_pre + 1
+                else:
+                    text = head + "fn deep() {\n" + body + "  " + stmt_text + "\n  0\n}\n@ true { deep(); }\n"
+                    want = head.count("\n") + 1 + inner_pre + 1
+                jobs.append((["-s", "-c", text], cap))
+                metas.append((kind + " " + place, text, want))
     results = e2e.run_many(jobs)
     import re
     for (kind, text, want), r in zip(metas, results):
